@@ -6,7 +6,9 @@ Driver ops of WP safety (C16).
                       prime (checked here by trial division): then `B(x, y) = 0` and
                       `P2 = (a - 2)(a + 1)/2 - (b - 2)(b + 1)/2` in exact integers (`P2_refines`, PcProps/C08P2.lean).
   p2wide_checked x y a b -> the same through the width-checked closed form `Pc.Safety.p2InitC` for `T = int128_t`
-                      (`TRAP:ovf-init-int64` where P2.cpp:109 overflows `int64_t`).
+                      (the line since /repo 8cccffb: never traps for the op's domain).
+  p2wide_prefix x y a b  -> the same through `Pc.Safety.p2InitCPreFix`, the line BEFORE 8cccffb
+                      (`TRAP:ovf-init-int64` where the old P2.cpp:109 overflowed `int64_t`; model-only, record of F9).
 -/
 import PcModel.SafetyLoops
 namespace Pc.Drv
@@ -19,7 +21,7 @@ def isPrimeTD (n : Nat) : Bool :=
 
 def i127Max : Nat := 170141183460469231731687303715884105727
 
-def p2wideOp (checked : Bool) (a : List String) : String :=
+def p2wideOp (checked : Bool) (a : List String) (prefix_ : Bool := false) : String :=
   match a.map String.toNat? with
   | [some x, some y, some pa, some pb] =>
     if x < 4 ∨ y < 1 ∨ x > 2 ^ 100 then "ERR:domain" else
@@ -27,7 +29,7 @@ def p2wideOp (checked : Bool) (a : List String) : String :=
     if y ≥ s ∨ s - y > 64 then "ERR:domain" else
     if ((List.range (s - y)).any fun i => isPrimeTD (y + 1 + i)) then "ERR:model-bound" else
     if checked then
-      match p2InitC (-(i127Max : Int) - 1) i127Max pa pb with
+      match (if prefix_ then p2InitCPreFix else p2InitC) (-(i127Max : Int) - 1) i127Max pa pb with
       | .ok v => toString v
       | .error e => e.toString
     else toString (p2Init pa pb)
@@ -36,6 +38,7 @@ def p2wideOp (checked : Bool) (a : List String) : String :=
 def safetyOps : String → Option (List String → String)
   | "p2wide" => some (p2wideOp false)
   | "p2wide_checked" => some (p2wideOp true)
+  | "p2wide_prefix" => some (fun a => p2wideOp true a true)
   | _ => none
 
 end Pc.Drv
